@@ -29,6 +29,13 @@ type vpBcastEnv struct {
 	// scripted outcome of the next Broadcast callback per tx
 	outcome   map[chainhash.Hash]error
 	cancelled bool
+	// the network answers rebroadcasts of these with "already confirmed"
+	confirmedByNet map[chainhash.Hash]bool
+	// Stop is called (from another goroutine) while a rebroadcast callback is
+	// waiting for its peers
+	stopInCallback bool
+	stopStarted    bool
+	stopDone       chan struct{}
 }
 
 // VerifH_C15_handler: up to `events` events (broadcast request with
@@ -46,7 +53,7 @@ func VerifH_C15_handler() {
 	txs := []*wire.MsgTx{parent, child, other}
 	hashes := []chainhash.Hash{parent.TxHash(), child.TxHash(), other.TxHash()}
 
-	e := &vpBcastEnv{ntfns: make(chan blockntfns.BlockNtfn), outcome: map[chainhash.Hash]error{}}
+	e := &vpBcastEnv{ntfns: make(chan blockntfns.BlockNtfn), outcome: map[chainhash.Hash]error{}, confirmedByNet: map[chainhash.Hash]bool{}}
 	cfg := &Config{
 		Broadcast: func(tx *wire.MsgTx) error {
 			h := tx.TxHash()
@@ -55,6 +62,19 @@ func VerifH_C15_handler() {
 				c.batch = e.batches
 			}
 			e.calls = append(e.calls, c)
+			if !e.inRequest {
+				if e.stopInCallback && !e.stopStarted {
+					e.stopStarted = true
+					go func() {
+						e.b.Stop()
+						close(e.stopDone)
+					}()
+					<-e.b.quit // the shutdown has begun before the peers answer
+				}
+				if e.confirmedByNet[h] {
+					return &BroadcastError{Code: Confirmed, Reason: "already confirmed"}
+				}
+			}
 			return e.outcome[h]
 		},
 		SubscribeBlocks: func() (*blockntfns.Subscription, error) {
@@ -102,6 +122,10 @@ func VerifH_C15_handler() {
 				delete(rejected, hashes[k])
 			}
 		case 1: // a block event: starts a rebroadcast of everything pending
+			if vpParam("netconfirm", 1) == 1 && vpRange("networkReportsConfirmed", 0, 1) == 1 {
+				// from now on the peers answer "already confirmed" for one tx
+				e.confirmedByNet[hashes[vpRange("tx", 0, 2)]] = true
+			}
 			before := len(e.calls)
 			e.batches++
 			batch := e.batches
@@ -144,12 +168,38 @@ func VerifH_C15_handler() {
 				vpReach("parent-and-child-pending")
 				vpAssert(pi < ci, "parent-before-child")
 			}
+			// what the network reported as confirmed during this batch is no longer pending
+			for _, h := range hashes {
+				if e.confirmedByNet[h] && accepted[h] && !confirmed[h] {
+					confirmed[h] = true
+					vpReach("confirmed-by-the-network")
+				}
+			}
 		case 2: // the rescan reports a confirmation
 			k := vpRange("tx", 0, 2)
 			e.b.MarkAsConfirmed(hashes[k])
 			confirmed[hashes[k]] = true
 			vpReach("confirmed")
 		}
+	}
+	// Stop called while a rebroadcast is waiting for its peers, which then
+	// answer "already confirmed": Stop must still return
+	anyPending := false
+	for _, h := range hashes {
+		if accepted[h] && !confirmed[h] {
+			anyPending = true
+		}
+	}
+	if anyPending && vpParam("stopmid", 1) == 1 && vpRange("stopDuringRebroadcast", 0, 1) == 1 {
+		for _, h := range hashes {
+			e.confirmedByNet[h] = true
+		}
+		e.stopInCallback = true
+		e.stopDone = make(chan struct{})
+		e.batches++
+		e.ntfns <- blockntfns.NewBlockConnected(wire.BlockHeader{}, 99)
+		<-e.stopDone // a Stop that never returns shows up as a deadlock
+		vpReach("stopped-during-a-rebroadcast")
 	}
 	// stopping returns, cancels the subscription, and later calls do not block
 	e.b.Stop()
